@@ -18,11 +18,27 @@ def make_tables(rng):
     return tables
 
 
+TRICKY_TEXTS = [b"aaab", b"aab", b"ababc", b"ananas", b"abab", b"xaab", b"aaa", b"abcabd", b"a_b", b"mississippi"]
+TRICKY_PATTERNS = [b"%aab", b"%aab%", b"%anas", b"%abc", b"%abd", b"a%ab", b"%a_b", b"%ab%c", b"%issip%", b"%aa", b"a%a%b", b"%ssi%pi"]
+
+
+def _side_pred(rng, t, off):
+    """a simple predicate over the columns of one join input"""
+    i = rng.randrange(len(t.cols))
+    kind = t.cols[i][1]
+    if rng.random() < 0.35:
+        return ("isnull", ("col", off + i), rng.random() < 0.3)
+    if kind in ("INT", "BIGINT", "TEXT"):
+        return ("bin", rng.choice(["=", "<", ">=", "<>"]), ("col", off + i), G.rand_lit(rng, kind, nulls=0.0))
+    return ("bin", "=", ("col", off + i), G.rand_lit(rng, kind, nulls=0.0))
+
+
 def populate(rng, h, t):
     n = rng.choice([0, 1, 3, 5, 8, 12])
     rows = []
     for i in range(n):
-        rows.append([G.rand_lit(rng, c[1], nulls=0.2) for c in t.cols])
+        rows.append([G.lit_text(rng.choice(TRICKY_TEXTS)) if (c[1] == "TEXT" and rng.random() < 0.25) else G.rand_lit(rng, c[1], nulls=0.2)
+                     for c in t.cols])
     for i in range(0, n, 4):
         chunk = rows[i:i + 4]
         h.x(G.insert_sql(t, chunk), G.insert_coq(t, chunk))
@@ -46,6 +62,20 @@ def gen_select(rng, tables, feats):
         cols = [(i, c[1]) for i, c in enumerate(t.cols)]
         frm = ("table", t)
     where = G.rand_expr(rng, "BOOLEAN", cols, rng.choice([1, 2, 3]), feats) if rng.random() < 0.7 else None
+    if frm[0] == "join" and frm[1] != "cross" and rng.random() < 0.3:
+        # a conjunct on the left input only AND a conjunct on the right input only (anti-join idiom, filters on the
+        # null-supplying side of an outer join): what predicate push-down must not move below an outer join
+        where = ("bin", "AND", _side_pred(rng, frm[2], 0), _side_pred(rng, frm[3], len(frm[2].cols)))
+        if rng.random() < 0.5:
+            where = ("bin", "AND", where[3], where[2])
+    elif "like" in feats and rng.random() < 0.12:
+        # patterns whose literal part overlaps itself, on texts where a failed partial match hides the real one
+        lk = ("bin", "NOT LIKE" if (rng.random() < 0.3 and "negated-forms" in feats) else "LIKE",
+              G.lit_text(rng.choice(TRICKY_TEXTS)), G.lit_text(rng.choice(TRICKY_PATTERNS)))
+        texts = [c for c in cols if c[1] == "TEXT"]
+        if texts and rng.random() < 0.6:
+            lk = (lk[0], lk[1], ("col", rng.choice(texts)[0]), lk[3])
+        where = lk if where is None or rng.random() < 0.5 else ("bin", rng.choice(["AND", "OR"]), where, lk)
     mode = rng.random()
     if mode < 0.6 or "aggregates" not in feats:
         items = [("expr", ("col", c[0])) for c in rng.sample(cols, rng.randint(1, min(3, len(cols))))]
